@@ -190,6 +190,11 @@ namespace vf
         {
             return alloc_calls_;
         }
+        // 0, or the index of an armed fault that has not fired yet
+        unsigned pending_fault() const
+        {
+            return fail_at_ > alloc_calls_ ? fail_at_ : 0;
+        }
 
         void* allocate(int owner, bool array, size_t count, size_t size, size_t align)
         {
